@@ -32,6 +32,10 @@ def steady_levels(m, names):
     return {n: float(np.ravel(lv[n])[0]) for n in names}
 
 
+def has_extra(sc):
+    return any(fr(x) != 0 for row in sc.get("dsd", ()) for x in row)
+
+
 def run_filter(sc, out, deviation=False, rescale=False, fresh=True):
     m = model(out["src"], True, fresh=fresh)
     stds = {"std_" + n: math.sqrt(float(fr(v))) for n, v in zip(out["shocks"], sc["sd"])}
@@ -43,6 +47,13 @@ def run_filter(sc, out, deviation=False, rescale=False, fresh=True):
         vals = [math.nan if nanv(row[i]) else float(row[i]) - (steady[n] if deviation else 0.0) for row in sc["data"]]
         db[n] = ir.Series(start=per(1), values=np.array(vals, dtype=float))
     kw = {"return_info": True}
+    if has_extra(sc):
+        # time-varying standard deviations supplied as data: only the periods that differ are given, the others fall back to the parameter
+        for k, n in enumerate(out["shocks"]):
+            vals = [math.sqrt(float(fr(sc["sd"][k]) + fr(sc["dsd"][t][k]))) if fr(sc["dsd"][t][k]) != 0 else math.nan for t in range(TK)]
+            if not all(math.isnan(v) for v in vals):
+                db["std_" + n] = ir.Series(start=per(1), values=np.array(vals, dtype=float))
+        kw["stds_from_data"] = True
     if deviation:
         kw["deviation"] = True
     if rescale:
